@@ -268,6 +268,28 @@ func applyCorruption(n *node.Node, c C07Corr, start, limit uint64, reqs []node.R
 		}
 		replies[1].Result = enc(logs)
 		return 200, encode(), true
+	case "log_hash":
+		// one log (not the first of the answer) names another block hash
+		if kind != "logs" || len(replies) < 2 {
+			return 0, nil, false
+		}
+		logs := asArr(replies[1].Result)
+		if len(logs) < 2 {
+			return 0, nil, false
+		}
+		li := 1 + c.Arg%(len(logs)-1)
+		l, _ := logs[li].(map[string]any)
+		if l == nil {
+			return 0, nil, false
+		}
+		other := n.Canonical(start + limit + 3)
+		if c.Arg%2 == 1 || other == nil {
+			l["blockHash"] = "0x" + strings.Repeat("5a", 32)
+		} else {
+			l["blockHash"] = "0x" + hex.EncodeToString(other.Hash)
+		}
+		replies[1].Result = enc(logs)
+		return 200, encode(), true
 	case "reorder_receipts":
 		// benign: the receipts of one block in another order (each still names
 		// its own transaction): must be attached by name, or refused
@@ -600,8 +622,16 @@ func c07Expect(cs *C07Case, ex []*c07Exchange) (blocks []*xBlock, reason string)
 				if x.hash == "" {
 					x.hash = lowerHex(lm["transactionHash"])
 				}
-				if !b.haveHeader {
-					b.hash = lowerHex(lm["blockHash"])
+				// "hash-linked where hashes are supplied ... attached to the block
+				// it names": the hash a log names must be the block's (the
+				// fetched header's, or the one the other logs of the block name)
+				if lh := lowerHex(lm["blockHash"]); lh != "" {
+					if b.hash != "" && lh != b.hash {
+						return nil, fmt.Sprintf("logs: a log of block %d names a block hash other than the block's", num)
+					}
+					if !b.haveHeader {
+						b.hash = lh
+					}
 				}
 			}
 		case "trace":
@@ -970,7 +1000,7 @@ var c07NeedSets = [][]string{
 }
 var c07Kinds = []string{"status", "non_json", "wrong_shape", "truncate", "drop", "dup", "swap", "null", "error", "renumber", "break_parent", "break_hash",
 	"move_log_in", "move_log_out", "move_log_tx", "move_receipt_in", "move_first_receipt_in", "move_receipt_out", "move_trace_in", "move_first_trace_in", "move_trace_out",
-	"reorder_receipts", "reorder_logs", "reorder_txs"}
+	"reorder_receipts", "reorder_logs", "reorder_txs", "log_hash"}
 
 var (
 	c07Once  sync.Once
@@ -1018,6 +1048,8 @@ func c07Init() {
 								args = 3
 							case "move_log_in", "move_log_tx", "move_trace_in", "reorder_receipts", "reorder_logs":
 								args = 2
+							case "log_hash":
+								args = 6
 							case "move_log_out", "move_receipt_out", "move_trace_out":
 								args = 3
 							}
